@@ -1265,6 +1265,9 @@ int gd_add_const(DIRFILE* D, const char* field_code, gd_type_t const_type,
   E.field_type = GD_CONST_ENTRY;
   E.EN(scalar,const_type) = const_type;
   E.fragment_index = fragment_index;
+  if (_GD_BadType(GD_DIRFILE_STANDARDS_VERSION, data_type))
+    GD_SET_RETURN_ERROR(D, GD_E_BAD_TYPE, 0, NULL, data_type, NULL);
+
   entry = _GD_Add(D, &E, NULL, 0);
 
   /* Actually store the constant, now */
@@ -1293,6 +1296,9 @@ int gd_add_carray(DIRFILE* D, const char* field_code, gd_type_t const_type,
   E.EN(scalar,const_type) = const_type;
   E.EN(scalar,array_len) = array_len;
   E.fragment_index = fragment_index;
+
+  if (_GD_BadType(GD_DIRFILE_STANDARDS_VERSION, data_type))
+    GD_SET_RETURN_ERROR(D, GD_E_BAD_TYPE, 0, NULL, data_type, NULL);
 
   entry = _GD_Add(D, &E, NULL, 0);
 
@@ -1815,6 +1821,9 @@ int gd_madd_const(DIRFILE* D, const char* parent, const char* field_code,
   E.field_type = GD_CONST_ENTRY;
   E.EN(scalar,const_type) = const_type;
   E.fragment_index = 0;
+  if (_GD_BadType(GD_DIRFILE_STANDARDS_VERSION, data_type))
+    GD_SET_RETURN_ERROR(D, GD_E_BAD_TYPE, 0, NULL, data_type, NULL);
+
   entry = _GD_Add(D, &E, parent, 0);
 
   /* Actually store the constant, now */
@@ -1843,6 +1852,9 @@ int gd_madd_carray(DIRFILE* D, const char* parent, const char* field_code,
   E.EN(scalar,const_type) = const_type;
   E.EN(scalar,array_len) = array_len;
   E.fragment_index = 0;
+  if (_GD_BadType(GD_DIRFILE_STANDARDS_VERSION, data_type))
+    GD_SET_RETURN_ERROR(D, GD_E_BAD_TYPE, 0, NULL, data_type, NULL);
+
   entry = _GD_Add(D, &E, parent, 0);
 
   /* Actually store the carray, now */
